@@ -76,6 +76,28 @@ def run_scenario(sc, strategy=None, race=False):
         for pname in spec.get('nopoll', ()):
             body[pname] = Parameter(pname, FloatRange(), default=0)
             body['read_' + pname] = nopoll(lambda self, mi=mi, pname=pname: act(mi, 'read_' + pname, [(0, 'ok')]))
+        # read handlers (frappy/rwhandler.py): ReadHandler polls every key, CommonReadHandler only its first key
+        from frappy.rwhandler import CommonReadHandler, ReadHandler
+        rh = spec.get('rh')
+        if rh:
+            for pname in rh['keys']:
+                body[pname] = Parameter(pname, FloatRange(), default=0)
+
+            def rhfunc(self, pname, mi=mi, script=rh.get('script')):
+                return act(mi, 'read_' + pname, script)
+            rhfunc.__qualname__ = f'PM{mi}.rhfunc'
+            body['rhfunc'] = ReadHandler(rh['keys'])(rhfunc)
+        crh = spec.get('crh')
+        if crh:
+            for pname in crh['keys']:
+                body[pname] = Parameter(pname, FloatRange(), default=0)
+
+            def crhfunc(self, mi=mi, keys=tuple(crh['keys']), script=crh.get('script')):
+                v = act(mi, 'read_' + keys[0], script)
+                for k in keys:
+                    setattr(self, k, v)
+            crhfunc.__qualname__ = f'PM{mi}.crhfunc'
+            body['crhfunc'] = CommonReadHandler(crh['keys'])(crhfunc)
         for pname in spec.get('writes', {}):
             body[pname] = Parameter(pname, FloatRange(), default=0, readonly=False)
             body['write_' + pname] = (lambda self, value, mi=mi, pname=pname: (act(mi, 'write_' + pname, [(0, 'ok')]), value)[1])
